@@ -125,9 +125,50 @@ def cases(draw):
     return c
 
 
+def _svc_recurring(data, cfg):
+    from vf import service
+
+    return [{"op": "predict_win", "teams": t} for t in service.lineups(data, cfg, k=8)]
+
+
+def _svc_judge(spec, out, ctx):
+    from vf import service
+
+    kind = spec["cfg"]["kind"]
+    for when in ("first", "last"):
+        for job, p in zip(spec["recurring"], out[when]):
+            n = len(job["teams"])
+            where = f"{kind}: predict_win on {n} teams ({'one of the first calls of the process' if when == 'first' else 'after ' + str(out['fillers']) + ' other calls through the same model'})"
+            if service.raised(p):
+                raise Violation(f"service:{when}:raised", f"{where} raised {p['raised']}")
+            if not isinstance(p, list) or len(p) != n or any(not (isinstance(x, (int, float)) and -1e-12 <= x <= 1 + 1e-12) for x in p):
+                raise Violation(f"service:{when}:range", f"{where} = {p!r}")
+            if abs(sum(p) - 1.0) > n * 1e-13:
+                raise Violation(f"service:{when}:sum", f"{where} sums to {sum(p)!r} ({p})")
+            teams = job["teams"]
+            for a in range(n):
+                for b in range(a + 1, n):
+                    if teams[a] == teams[b] and abs(p[a] - p[b]) > 1e-12:
+                        raise Violation(f"service:{when}:identical-teams", f"{where}: identical teams {a}, {b} get {p[a]!r}, {p[b]!r}")
+            if n == 2 and teams[0] == teams[1] and p != [0.5, 0.5]:
+                raise Violation(f"service:{when}:one-half", f"{where}: two identical teams get {p!r}")
+
+
+def _svc(i):
+    from vf import service
+
+    if not hasattr(_svc, "fns"):
+        _svc.fns = service.make_clause_functions(_svc_recurring, _svc_judge)
+    return _svc.fns[i]
+
+
 PROPERTY = Property(
     pid="C09",
-    clauses=[Clause(name="distribution-symmetry-monotonicity", strategy=cases(), check=check_c09, quick=8000, thorough=150000,
+    clauses=[
+        Clause(name="long-running-service", kind="custom", custom=lambda *a: _svc(0)(*a), check=lambda *a: _svc(1)(*a), quick=16, thorough=64, shards_quick=16, shards_thorough=16,
+               rule="one fresh child interpreter and ONE long-lived model per case: predict_win on 11 recurring line-ups (newcomers on default ratings incl. identical "
+                    "teams + generated ones) first, then 9 000 (quick) / 70 000 (thorough) other calls with ever new line-ups, then the recurring calls again: range, "
+                    "sum 1, identical teams equal, exactly one half for two identical teams - early and late; non-trivial = at least 4 200 calls in between"),Clause(name="distribution-symmetry-monotonicity", strategy=cases(), check=check_c09, quick=8000, thorough=150000,
                     rule="one list of teams + a drawn team permutation, player permutations and a single-member mu increment; non-trivial = >= 3 teams or two teams "
                          "of unequal size")],
     rule="generated teams (incl. identical / 1-ulp-apart teams, 2..8 x 1..8, scale 1e-3..1e3); oracle: length, [0,1] (1e-12), sum 1 (n x 1e-13), permutation "
